@@ -217,10 +217,15 @@ theorem parseLines_perm (c : Ctx) (fields : List TField) (cols cols' : Cols) (fi
     have hacc : (cols.row i (first + i) t).acc = (cols'.row i (first' + i) t').acc := by
       unfold Cols.row
       exact C10b_acc _ _ _ _ _ _ (row_cells_perm cols cols' hp i) (by rw [row_cells_names]; exact hn)
-    rw [hacc]
-    cases parseFields c (cols'.row i (first' + i) t').acc fields m [] with
-    | ok r => exact ih _ _
-    | error e => exact finishErr_core _ _ e
+    have hblank : (cols.row i (first + i) t).blank = (cols'.row i (first' + i) t').blank := by
+      unfold Cols.row Row.blank
+      exact (row_cells_perm cols cols' hp i).all_eq
+    rw [hacc, hblank]
+    split
+    · exact ih _ _
+    · cases parseFields c (cols'.row i (first' + i) t').acc fields m [] with
+      | ok r => exact ih _ _
+      | error e => exact finishErr_core _ _ e
 
 /-- **C10b_sheet**: a worksheet whose columns are permuted together with their header cells (names
 pairwise distinct) converts to the same message, or fails with the same error code at the same
@@ -247,10 +252,15 @@ theorem parseLines_insert_blank (c : Ctx) (fields : List TField) (l₁ l₂ : Co
       unfold Cols.row
       simp only [List.map_append, List.map_cons]
       exact C10c_acc _ _ _ _ _ _
-    rw [hacc]
-    cases parseFields c ((l₁ ++ l₂).row i (first + i) t).acc fields m [] with
-    | ok r => exact ih _ _
-    | error e => exact finishErr_core _ _ e
+    have hblank : ((l₁ ++ ([], ds) :: l₂).row i (first + i) t).blank = ((l₁ ++ l₂).row i (first + i) t).blank := by
+      unfold Cols.row Row.blank
+      simp [List.map_append, List.all_append]
+    rw [hacc, hblank]
+    split
+    · exact ih _ _
+    · cases parseFields c ((l₁ ++ l₂).row i (first + i) t).acc fields m [] with
+      | ok r => exact ih _ _
+      | error e => exact finishErr_core _ _ e
 
 theorem C10c_sheet (c : Ctx) (fields : List TField) (l₁ l₂ : Cols) (ds : List Str) (n first : Nat) (t : Bool) :
     (parseCols c fields (l₁ ++ ([], ds) :: l₂) n first t).core = (parseCols c fields (l₁ ++ l₂) n first t).core := by
@@ -268,6 +278,144 @@ theorem C10c_sheet (c : Ctx) (fields : List TField) (l₁ l₂ : Cols) (ds : Lis
     cases h2 : firstDupGo (l₁.map (·.1) ++ l₂.map (·.1)) [] with
     | some n2 => rw [h2] at hd; simp at hd
     | none => exact parseLines_insert_blank c fields l₁ l₂ ds first t n 0 []
+
+/-! ### (c) blank data lines -/
+
+/-- `l` with `v` inserted before position `j` -/
+def insertAt (j : Nat) (v : Str) (l : List Str) : List Str := l.take j ++ v :: l.drop j
+
+theorem insertAt_lt (j i : Nat) (v : Str) (l : List Str) (hj : j ≤ l.length) (hi : i < j) :
+    (insertAt j v l).getD i [] = l.getD i [] := by
+  unfold insertAt
+  simp only [List.getD_eq_getElem?_getD]
+  rw [List.getElem?_append_left (by simp; omega)]
+  simp [List.getElem?_take, hi]
+
+theorem insertAt_eq (j : Nat) (v : Str) (l : List Str) (hj : j ≤ l.length) : (insertAt j v l).getD j [] = v := by
+  unfold insertAt
+  simp only [List.getD_eq_getElem?_getD]
+  rw [List.getElem?_append_right (by simp; omega)]
+  simp [Nat.min_eq_left hj]
+
+theorem insertAt_gt (j i : Nat) (v : Str) (l : List Str) (hj : j ≤ l.length) (hi : j ≤ i) :
+    (insertAt j v l).getD (i + 1) [] = l.getD i [] := by
+  unfold insertAt
+  simp only [List.getD_eq_getElem?_getD]
+  rw [List.getElem?_append_right (by simp; omega)]
+  have : i + 1 - (List.take j l).length = (i - j) + 1 := by simp [Nat.min_eq_left hj]; omega
+  rw [this]
+  simp only [List.getElem?_cons_succ, List.getElem?_drop]
+  congr 2; omega
+
+/-- the sheet with one more data line, inserted before line `j`: blank in every named column (any content under
+blank name cells) -/
+def insertLine (j : Nat) (ins : Str × List Str → Str) (cols : Cols) : Cols :=
+  cols.map (fun c => (c.1, insertAt j (ins c) c.2))
+
+theorem insertLine_row_lt (j i idx idx' : Nat) (t : Bool) (ins : Str × List Str → Str) (cols : Cols) (n : Nat)
+    (hrect : ∀ c ∈ cols, c.2.length = n) (hj : j ≤ n) (hi : i < j) :
+    ((insertLine j ins cols).row i idx t).cells = (cols.row i idx' t).cells := by
+  unfold insertLine Cols.row
+  simp only [List.map_map]
+  apply List.map_congr_left
+  intro c hc
+  have := insertAt_lt j i (ins c) c.2 (by rw [hrect c hc]; exact hj) hi
+  simp only [List.getD_eq_getElem?_getD] at this
+  simp [Function.comp, this]
+
+theorem insertLine_row_gt (j i idx idx' : Nat) (t : Bool) (ins : Str × List Str → Str) (cols : Cols) (n : Nat)
+    (hrect : ∀ c ∈ cols, c.2.length = n) (hj : j ≤ n) (hi : j ≤ i) :
+    ((insertLine j ins cols).row (i + 1) idx t).cells = (cols.row i idx' t).cells := by
+  unfold insertLine Cols.row
+  simp only [List.map_map]
+  apply List.map_congr_left
+  intro c hc
+  have := insertAt_gt j i (ins c) c.2 (by rw [hrect c hc]; exact hj) hi
+  simp only [List.getD_eq_getElem?_getD] at this
+  simp [Function.comp, this]
+
+theorem insertLine_row_blank (j idx : Nat) (t : Bool) (ins : Str × List Str → Str) (cols : Cols) (n : Nat)
+    (hrect : ∀ c ∈ cols, c.2.length = n) (hj : j ≤ n) (hins : ∀ c ∈ cols, c.1 ≠ [] → ins c = []) :
+    ((insertLine j ins cols).row j idx t).blank = true := by
+  unfold insertLine Cols.row Row.blank
+  simp only [List.map_map, List.all_map, List.all_eq_true, Function.comp, Bool.or_eq_true]
+  intro c hc
+  by_cases hn : c.1 = []
+  · left; simp [hn]
+  · right
+    rw [insertAt_eq j (ins c) c.2 (by rw [hrect c hc]; exact hj), hins c hc hn]
+    rfl
+
+/-- two lines with the same cells are treated alike, whatever their sheet indices -/
+theorem line_step_eq (c : Ctx) (fields : List TField) (r r' : Row) (hcells : r.cells = r'.cells) :
+    r.blank = r'.blank ∧ r.acc = r'.acc := by
+  refine ⟨by simp [Row.blank, hcells], ?_⟩
+  have hcount : r.count = r'.count := by funext pre; simp [Row.count, hcells]
+  simp only [Row.acc, Row.lookup, hcells, hcount]
+
+/-- after the inserted line: the lines are the original ones, one index later -/
+theorem parseLines_after (c : Ctx) (fields : List TField) (cols : Cols) (first : Nat) (t : Bool) (j n : Nat)
+    (ins : Str × List Str → Str) (hrect : ∀ c ∈ cols, c.2.length = n) (hj : j ≤ n) :
+    ∀ fuel i m, j ≤ i →
+      (parseLines c fields (insertLine j ins cols) first t fuel (i + 1) m).core = (parseLines c fields cols first t fuel i m).core := by
+  intro fuel
+  induction fuel with
+  | zero => intro i m _; rfl
+  | succ fuel ih =>
+    intro i m hi
+    simp only [parseLines]
+    obtain ⟨hb, ha⟩ := line_step_eq c fields _ _ (insertLine_row_gt j i (first + (i + 1)) (first + i) t ins cols n hrect hj hi)
+    rw [hb, ha]
+    split
+    · exact ih _ _ (by omega)
+    · cases parseFields c (cols.row i (first + i) t).acc fields m [] with
+      | ok r => exact ih _ _ (by omega)
+      | error e => exact finishErr_core _ _ e
+
+/-- **C10c_rows**: a data line whose named columns are all blank — appended at the end (what a rectangular CSV
+export keeps and the XLSX reader drops) or inserted anywhere — leaves the outcome unchanged, whatever field
+properties the schema carries (true since fix D35). -/
+theorem C10c_rows (c : Ctx) (fields : List TField) (cols : Cols) (first : Nat) (t : Bool) (j n : Nat)
+    (ins : Str × List Str → Str) (hrect : ∀ c ∈ cols, c.2.length = n) (hj : j ≤ n)
+    (hins : ∀ c ∈ cols, c.1 ≠ [] → ins c = []) :
+    ∀ fuel i m, i ≤ j → i + fuel = n →
+      (parseLines c fields (insertLine j ins cols) first t (fuel + 1) i m).core = (parseLines c fields cols first t fuel i m).core := by
+  intro fuel
+  induction fuel with
+  | zero =>
+    intro i m hi hn
+    have hij : i = j := by omega
+    subst hij
+    simp only [parseLines, insertLine_row_blank i (first + i) t ins cols n hrect hj hins, if_true]
+  | succ fuel ih =>
+    intro i m hi hn
+    by_cases hij : i = j
+    · subst hij
+      rw [parseLines]
+      simp only [insertLine_row_blank i (first + i) t ins cols n hrect hj hins, if_true]
+      exact parseLines_after c fields cols first t i n ins hrect hj (fuel + 1) i m (Nat.le_refl _)
+    · have hlt : i < j := by omega
+      rw [parseLines]
+      conv => rhs; rw [parseLines]
+      obtain ⟨hb, ha⟩ := line_step_eq c fields _ _ (insertLine_row_lt j i (first + i) (first + i) t ins cols n hrect hj hlt)
+      simp only [hb, ha]
+      split
+      · exact ih _ _ (by omega) (by omega)
+      · cases parseFields c (cols.row i (first + i) t).acc fields m [] with
+        | ok r => exact ih _ _ (by omega) (by omega)
+        | error e => exact finishErr_core _ _ e
+
+/-- … for the whole column loop of `Parse` -/
+theorem C10c_rows_sheet (c : Ctx) (fields : List TField) (cols : Cols) (first : Nat) (t : Bool) (j n : Nat)
+    (ins : Str × List Str → Str) (hrect : ∀ c ∈ cols, c.2.length = n) (hj : j ≤ n)
+    (hins : ∀ c ∈ cols, c.1 ≠ [] → ins c = []) :
+    (parseCols c fields (insertLine j ins cols) (n + 1) first t).core = (parseCols c fields cols n first t).core := by
+  unfold parseCols
+  have hnames : (insertLine j ins cols).map (·.1) = cols.map (·.1) := by simp [insertLine, List.map_map, Function.comp]
+  rw [hnames]
+  cases firstDup (cols.map (·.1)) with
+  | some nm => rfl
+  | none => exact C10c_rows c fields cols first t j n ins hrect hj hins n 0 [] (by omega) (by omega)
 
 /-! ### (a) transposition -/
 
@@ -325,10 +473,13 @@ theorem parseLines_flag (c : Ctx) (fields : List TField) (cols : Cols) (first fi
     intro i m
     simp only [parseLines]
     have hacc : (cols.row i (first + i) t).acc = (cols.row i (first' + i) t').acc := acc_indep _ _ _ _ _
-    rw [hacc]
-    cases parseFields c (cols.row i (first' + i) t').acc fields m [] with
-    | ok r => exact ih _ _
-    | error e => exact finishErr_core _ _ e
+    have hblank : (cols.row i (first + i) t).blank = (cols.row i (first' + i) t').blank := rfl
+    rw [hacc, hblank]
+    split
+    · exact ih _ _
+    · cases parseFields c (cols.row i (first' + i) t').acc fields m [] with
+      | ok r => exact ih _ _
+      | error e => exact finishErr_core _ _ e
 
 /-- the column-major view of a transposed sheet read with the flag flipped is the view of the sheet itself -/
 theorem toCols_transpose (o : SheetOpts) (g : Grid) (h : 0 < g.maxCol) :
